@@ -328,7 +328,7 @@ def zhex(z):
 
 
 def run(ctx):
-    n_in, n_out = (4000, 6000) if not ctx.thorough else (150000, 300000)
+    n_in, n_out = (4000, 6000) if not ctx.thorough else (100000, 150000)
     ctx.cov["rule"] = ("inner: word arrays (boundary lattice incl. carries across all-ones words, spare high zero words, unequal lengths) "
                        "fed to the C digit functions and the extracted model, compared word for word; outer: operand tuples over the "
                        "boundary lattice x every operation through the Scheme API vs the extracted Z spec; a case is non-trivial when "
@@ -422,8 +422,21 @@ def tcls(v):
     return "f" if -(1 << 62) <= v <= FIXMAX else "b"
 
 
+def load_corpus():
+    out = []
+    p = os.path.join(os.path.dirname(__file__), "..", "corpus", "C04", "outer.case")
+    if os.path.exists(p):
+        for ln in open(p):
+            ln = ln.rstrip("\n")
+            if ln and not ln.startswith("#"):
+                sig, e, q = ln.split("\t")
+                out.append((sig, e, q, ("corpus", e), True))
+    return out
+
+
 def gen_outer(ctx, rng, lat, n_out):
-    cases = []
+    cases = load_corpus()
+    ctx.cov["corpus_cases"] = len(cases)
 
     def bin_case(idx, tmpl, a, b):
         op = tmpl.split()[0].strip("(")
